@@ -362,6 +362,45 @@ func c19HelloCases(g *hx.Gen, emit func(msg []byte)) {
 		}
 		emit(c19Profile(p, nil).message(r))
 	}
+	// the two extensions whose bodies are parsed: every body of length 0..4 over a small
+	// alphabet (all the length-field combinations that matter), as last extension and followed by another
+	var bodies [][]byte
+	var rec func(p []byte)
+	rec = func(p []byte) {
+		bodies = append(bodies, append([]byte(nil), p...))
+		if len(p) < 4 {
+			for _, c := range []byte{0, 1, 2, 4} {
+				rec(append(append([]byte(nil), p...), c))
+			}
+		}
+	}
+	rec(nil)
+	for _, id := range []uint16{10, 11} {
+		for _, b := range bodies {
+			h := c19Profile("bare", nil)
+			h.exts = []c19Ext{{23, nil}, {id, b}}
+			emit(h.message(r))
+			h.exts = []c19Ext{{id, b}, {23, nil}}
+			emit(h.message(r))
+		}
+	}
+	// every extension order of length <= 4 over the ids the heuristics look for by position
+	var orders [][]uint16
+	var rec2 func(p []uint16)
+	rec2 = func(p []uint16) {
+		orders = append(orders, append([]uint16(nil), p...))
+		if len(p) < 4 {
+			for _, c := range []uint16{5, 10, 11, 23} {
+				rec2(append(append([]uint16(nil), p...), c))
+			}
+		}
+	}
+	rec2(nil)
+	for _, o := range orders {
+		h := c19Profile("edge", nil)
+		h.exts = plainExts(o...)
+		emit(h.message(r))
+	}
 	for _, hs := range c19Captured {
 		msg := hx.UnH(hs)
 		emit(msg)
